@@ -54,11 +54,14 @@ fn route(req: &Json) -> Json {
             Err(matchit::InsertError::Conflict { with }) => {
                 all_ok = false;
                 // pavexc indexes `pattern2guard[&with]`: an unknown `with` would be a panic there.
-                ins.push(json!({"conflict": true, "with_known": pattern2guard.contains_key(&with)}))
+                ins.push(json!({"conflict": true, "with_known": pattern2guard.contains_key(&with)}));
+                // pavexc goes on to collect further diagnostics; the verdict is decided here.
+                break;
             }
             Err(e) => {
                 all_ok = false;
-                ins.push(json!({"invalid": format!("{e:?}")}))
+                ins.push(json!({"invalid": format!("{e:?}")}));
+                break;
             }
         }
     }
